@@ -90,6 +90,35 @@ func H_C13_noretro_delegate() {
 	nd.Assert(id+".nopay", stakeBal(e, 0).Equal(pre))
 }
 
+// H_C13_slash_settles: the slash of a pending redelegation settles the destination position first
+// (claim) and the settlement persists: afterwards the position's history equals the validator's and
+// a further claim pays nothing - rewards are never claimable twice.
+func H_C13_slash_settles() {
+	id := "C13.slash"
+	st := Build([]Pos{{0, 0, 0}, {0, 1, 0}, {1, 1, 0}}, Opts{Rewards: true, BigPool: true, StrictRewards: true, Hints: true})
+	e := st.E
+	c1 := nd.TimeRange("c1", TLo, THi)
+	nd.Assume(!c1.Before(st.T0)) // still pending
+	InstallRedelegation(e, 0, 0, 1, 0, nd.IntRange("r1", "1", Pow30), c1)
+	f := nd.DecRange("fraction", "0.000000000000000001", "1")
+	var err error
+	if Caught(func() { err = e.K.StakingHooks().BeforeValidatorSlashed(e.Ctx, Vals[0], f) }) || err != nil {
+		return // totality is C08's subject
+	}
+	del, found := e.K.GetDelegation(e.Ctx, Dels[0], Vals[1], Denoms[0])
+	if !found {
+		return
+	}
+	nd.Reach(id)
+	info, _ := e.K.GetAllianceValidatorInfo(e.Ctx, Vals[1])
+	nd.Assert(id+".history", histEqual(info.GlobalRewardHistory, del.RewardHistory))
+	pre := stakeBal(e, 0)
+	if Caught(func() { _, err = e.K.ClaimDelegationRewards(e.Ctx, Dels[0], AV(e, Vals[1]), Denoms[0]) }) || err != nil {
+		return
+	}
+	nd.Assert(id+".nopay", stakeBal(e, 0).Equal(pre))
+}
+
 // H_C13_noretro_redelegate: the same for stake arriving by redelegation, at a new or an
 // existing destination position (known finding: new destination positions).
 func H_C13_noretro_redelegate() {
